@@ -290,9 +290,15 @@ def kde_multivariate(events_x, events_y, xout=None, yout=None, bw=None):
 
     # Use arrays of shape (N, 2) (one row per event/position). The
     # estimator would otherwise guess the orientation of (2, 2) arrays.
-    positions = np.column_stack([xout.flatten(), yout.flatten()])
+    # The conversion to float avoids integer overflows in the kernel
+    # (e.g. unsigned integer fluorescence features).
+    positions = np.column_stack([
+        np.asarray(xout, dtype=np.float64).flatten(),
+        np.asarray(yout, dtype=np.float64).flatten()])
     estimator_ly = KDEMultivariate(
-        data=np.column_stack([events_x.flatten(), events_y.flatten()]),
+        data=np.column_stack([
+            np.asarray(events_x, dtype=np.float64).flatten(),
+            np.asarray(events_y, dtype=np.float64).flatten()]),
         var_type='cc', bw=bw)
 
     density = estimator_ly.pdf(positions)
